@@ -53,9 +53,28 @@ def writeExponent (fmt : Format) (feats : Features) (exp : Int) (expChar : Nat) 
     if exp < 0 then [45] else if feats.format ∧ fmt.requiredExponentSign then [43] else []
   [expChar] ++ sign ++ numeral expRadix exp.natAbs
 
+/-- `write_float_scientific` after `truncate_and_round_decimal` (fix C14-decimal-trim-after-rounding): with
+`trim_floats`, digits that are all `0` after the first one are dropped — the mantissa is integral. -/
+def trimSci (o : WOpts) (ds : List Nat) : List Nat :=
+  if o.trim ∧ ds.tail.all (· = 0) then ds.take 1 else ds
+
+/-- `write_float_positive_exponent` after `leading_digits` is known (same fix): with `trim_floats`, digits past the
+decimal point that are all `0` are dropped — the value is integral. -/
+def trimPos (o : WOpts) (leading : Nat) (ds : List Nat) : List Nat :=
+  if o.trim ∧ ds.length > leading ∧ (ds.drop leading).all (· = 0) then ds.take leading else ds
+
+/-- digits kept by the scientific layout, and the carry -/
+def roundSci (ds : List Nat) (o : WOpts) : List Nat × Bool :=
+  (trimSci o (truncateAndRound ds o).1, (truncateAndRound ds o).2)
+
+/-- digits kept by the positional layout of a value ≥ 1, and the carry -/
+def roundPos (ds : List Nat) (sciExp : Int) (o : WOpts) : List Nat × Bool :=
+  (trimPos o (sciExp.toNat + 1 + (if (truncateAndRound ds o).2 then 1 else 0)) (truncateAndRound ds o).1,
+   (truncateAndRound ds o).2)
+
 def writeScientific (fmt : Format) (feats : Features) (ds : List Nat) (sciExp : Int) (o : WOpts)
     (expRadix : Nat := 10) : List Nat :=
-  let (ds, carried) := truncateAndRound ds o
+  let (ds, carried) := roundSci ds o
   let sciExp := sciExp + (if carried then 1 else 0)
   let count := ds.length
   let exact := minExactDigits count o
@@ -80,7 +99,7 @@ def writeNegative (ds : List Nat) (sciExp : Int) (o : WOpts) : List Nat :=
     [48, o.dp] ++ zeros lead ++ chars ds ++ (if count < exact then zeros (exact - count) else [])
 
 def writePositive (ds : List Nat) (sciExp : Int) (o : WOpts) : List Nat :=
-  let (ds, carried) := truncateAndRound ds o
+  let (ds, carried) := roundPos ds sciExp o
   let count := ds.length
   let leading := sciExp.toNat + 1 + (if carried then 1 else 0)
   if leading ≥ count then
